@@ -58,8 +58,16 @@ Verdict judge(const Case& c) {
               cl.AddSubject(Paths64(subj.begin(), subj.begin() + half));
               Paths64 first;
               cl.Execute(ClipType::Union, fr, first);
-              if (half < subj.size()) cl.AddSubject(Paths64(subj.begin() + half, subj.end()));
-              cl.AddClip(clip);
+              // the rest arrives either through AddSubject/AddClip or through a ReuseableDataContainer64
+              ReuseableDataContainer64 rdc;
+              if (G_freeAlt) {
+                if (half < subj.size()) rdc.AddPaths(Paths64(subj.begin() + half, subj.end()), PathType::Subject, false);
+                rdc.AddPaths(clip, PathType::Clip, false);
+                cl.AddReuseableData(rdc);
+              } else {
+                if (half < subj.size()) cl.AddSubject(Paths64(subj.begin() + half, subj.end()));
+                cl.AddClip(clip);
+              }
               ok = cl.Execute(ct, fr, sol);
             } else if (variant == 2) {
               // the free-function route (Intersect / Union / Difference / Xor and BooleanOp, default options)
